@@ -241,6 +241,17 @@ class PassModel:
                 return self.owner_of_dims(bnd[1])
         return None
 
+    def dims_owner(self, v, depth):
+        """the dimensions of the array held in variable v are those of node ...: v itself if it is a node, else the node whose
+        shape the value bound to v has (the old content of a node's slot has that node's dimensions)"""
+        if v != self.selfv and v in self.binds and self.binds[v][0] == "owner":
+            return ("owner", self.binds[v][1])
+        if v != self.selfv and v in self.binds and depth < 18:
+            sh = self.shape_of_var(v, depth + 1)
+            if sh[0] == "owner":
+                return sh
+        return ("owner", v)
+
     def opt_inner_shape(self, e, depth):
         """shape of the payload of an Option-typed expression"""
         e = peel(e)
@@ -268,7 +279,7 @@ class PassModel:
             cal = callee(e)
             if r == FLATTEN:
                 n = self.owner_of_dims(e["args"][1])
-                return ("owner", n) if n else ("raw", "flatten_to target is not some node's dimensions")
+                return self.dims_owner(n, depth) if n else ("raw", "flatten_to target is not some node's dimensions")
             if r == ADD:
                 a = self.shape(e["args"][0], depth + 1)
                 b = self.shape(e["args"][1], depth + 1)
@@ -282,7 +293,7 @@ class PassModel:
                 if tup.get("k") == "Tuple":
                     n = self.owner_of_dims(tup["fields"][0])
                     if n:
-                        return ("owner", n)
+                        return self.dims_owner(n, depth)
                 return ("raw", "constructed with dimensions not taken from a node")
             if cal in ("core::option::Option::<T>::unwrap_or_else", "core::option::Option::<T>::unwrap_or", "core::option::Option::<T>::map_or_else"):
                 a = self.opt_inner_shape(e["args"][0], depth + 1)
@@ -1063,15 +1074,42 @@ def r25_accumulate_arms(facts):
                 kinds_seen.setdefault(owner, set()).add(kind)
                 p = peel(m.unlet(expr))
                 if kind == "Some":
-                    ok = p.get("k") == "Call" and resolved(p) == ADD
-                    if ok:
-                        a0 = _vars_in(p["args"][0])
-                        a1 = _vars_in(p["args"][1])
-                        has_old = bool((a0 | a1) & set(olds))
-                        other = p["args"][1] if (a0 & set(olds)) else p["args"][0]
-                        other2 = m.unlet(peel(other)) if peel(other).get("k") == "VarRef" else other
-                        has_new = bool(_vars_in(other) - set(olds)) and (_only_linear_wrappers(other) or _only_linear_wrappers(other2))
-                        ok = has_old and has_new
+                    def old_plus_new(p):
+                        """True / False / None (assembled by hand from value buffers: not read)"""
+                        p = peel(m.unlet(p)) if isinstance(p, dict) else p
+                        if not isinstance(p, dict):
+                            return False
+                        if p.get("k") in ("If", "Match", "Block"):
+                            br = [p["then"], p.get("else")] if p["k"] == "If" else ([a["body"] for a in p["arms"]] if p["k"] == "Match" else [p.get("e")])
+                            br = [b_ for b_ in br if b_ is None or not F._diverging(b_)]
+                            if not br or any(b_ is None for b_ in br):
+                                return False
+                            vals = [old_plus_new(b_) for b_ in br]
+                            return False if any(v is False for v in vals) else (None if any(v is None for v in vals) else True)
+                        if p.get("k") == "Call" and (resolved(p) or "").startswith(CTOR_PREFIX):
+                            used = _vars_in(p)
+                            for _ in range(3):
+                                for v_ in list(used):
+                                    bnd_ = m.binds.get(v_)
+                                    if bnd_ and bnd_[0] == "let" and bnd_[1] is not None:
+                                        used |= _vars_in(bnd_[1])
+                            reads = any((x.get("k") == "Field" and x.get("adt") == ARRAY and x.get("name") == "values") for v_ in used
+                                        for x in (walk(m.binds[v_][1]) if m.binds.get(v_) and m.binds[v_][0] == "let" and m.binds[v_][1] is not None else []))
+                            return None if (used & set(olds)) and reads else False
+                        ok_ = p.get("k") == "Call" and resolved(p) == ADD
+                        if ok_:
+                            a0 = _vars_in(p["args"][0])
+                            a1 = _vars_in(p["args"][1])
+                            has_old = bool((a0 | a1) & set(olds))
+                            other = p["args"][1] if (a0 & set(olds)) else p["args"][0]
+                            other2 = m.unlet(peel(other)) if peel(other).get("k") == "VarRef" else other
+                            has_new = bool(_vars_in(other) - set(olds)) and (_only_linear_wrappers(other) or _only_linear_wrappers(other2))
+                            ok_ = has_old and has_new
+                        return bool(ok_)
+                    ok = old_plus_new(p)
+                    if ok is None:
+                        c.unk("%s:Some-arm" % name, loc(bw, n), "an alternative of the value stored into the occupied %s slot is assembled by hand from value buffers: whether it is old + new is not read" % name)
+                        continue
                     c.check(ok, "%s:Some-arm" % name, loc(bw, n),
                             "occupied slot: stores old + new (resolved <&Array as Add<&Array>>::add)",
                             "occupied %s slot is not updated to old + new: %s (an earlier contribution would be lost or combined wrongly)" % (name, show(expr)[:120]))
@@ -1138,7 +1176,16 @@ def engine_seed_linearity(c, facts):
             return seedlin(e["fields"][0]["e"], depth + 1)
         return False
 
+    def tri_all(vals):
+        vals = list(vals)
+        if any(v is False for v in vals):
+            return False
+        if any(v is None for v in vals):
+            return None
+        return True
+
     def seedlin(e, depth=0):
+        """True: linear in the seed; False: recognisably not; None: built by hand from buffers (not read)"""
         e = peel(e)
         if depth > 16 or not isinstance(e, dict):
             return False
@@ -1153,12 +1200,12 @@ def engine_seed_linearity(c, facts):
             if bnd[0] == "owner":
                 return False
             if bnd[0] == "let":
-                return bnd[1] is not None and seedlin(bnd[1], depth + 1)
+                return False if bnd[1] is None else seedlin(bnd[1], depth + 1)
             _, scrut, path, owner = bnd
             if [p for p in path if p != "*"] == ["Some.0"] and opt_lin(scrut, depth):
                 return True
             if from_invocation(v, set()):
-                return pass_delta is not None and state["third"]
+                return bool(pass_delta is not None and state["third"])
             return False
         if k == "Call":
             r = resolved(e)
@@ -1166,19 +1213,36 @@ def engine_seed_linearity(c, facts):
             if r in (FLATTEN, CLONE):
                 return seedlin(e["args"][0], depth + 1)
             if r == ADD:
-                return seedlin(e["args"][0], depth + 1) and seedlin(e["args"][1], depth + 1)
+                return tri_all([seedlin(e["args"][0], depth + 1), seedlin(e["args"][1], depth + 1)])
             if (r or "").startswith(CTOR_PREFIX):
                 ok, _ = _is_ones_of_self(m, e)
-                return ok       # the default seed: it *is* the seed of this pass
+                if ok:
+                    return True       # the default seed: it *is* the seed of this pass
+                tup = strip(e["args"][0]) if e.get("args") else {}
+                if tup.get("k") == "Tuple" and len(tup["fields"]) == 2:
+                    vv = peel(tup["fields"][1])
+                    hops = 0
+                    while isinstance(vv, dict) and vv.get("k") == "Call" and callee(vv) in ("alloc::rc::Rc::<T>::new",) and vv["args"] and hops < 3:
+                        vv = peel(vv["args"][0])
+                        hops += 1
+                    if isinstance(vv, dict) and vv.get("k") == "VarRef" and vv["v"] in m.binds and m.binds[vv["v"]][0] == "let" and m.binds[vv["v"]][1] is not None:
+                        init = m.binds[vv["v"]][1]
+                        reads = any((x.get("k") == "Field" and x.get("adt") == ARRAY and x.get("name") == "values") or
+                                    (x.get("k") == "Call" and resolved(x) == "corgi::array::Array::values") for x in walk(init))
+                        if reads:
+                            return None     # an array assembled by hand from other arrays' buffers: arithmetic not read here
+                return False
             if cal in ("core::option::Option::<T>::unwrap_or_else", "core::option::Option::<T>::unwrap_or"):
                 d = strip(e["args"][1])
                 if d.get("k") == "Closure":
                     cb = m.facts.body(d["closure"])
                     _, d = closure_tail(m.facts, cb)
                     m.binds.update(F.bindings_of(m.facts.root(cb)))
-                return opt_lin(e["args"][0], depth) and d is not None and seedlin(d, depth + 1)
+                if not opt_lin(e["args"][0], depth) or d is None:
+                    return False
+                return seedlin(d, depth + 1)
             if cal in ("core::option::Option::<T>::unwrap", "core::option::Option::<T>::expect"):
-                return opt_lin(e["args"][0], depth)
+                return bool(opt_lin(e["args"][0], depth))
             return False
         if k in ("If", "Match", "Block"):
             if k == "If":
@@ -1188,7 +1252,9 @@ def engine_seed_linearity(c, facts):
             else:
                 br = [e.get("e")]
             br = [b for b in br if b is None or not F._diverging(b)]
-            return bool(br) and all(b is not None and seedlin(b, depth + 1) for b in br)
+            if not br or any(b is None for b in br):
+                return False
+            return tri_all(seedlin(b, depth + 1) for b in br)
         return False
 
     if pass_delta is not None:
@@ -1211,6 +1277,9 @@ def engine_seed_linearity(c, facts):
                     m.binds.pop(ov, None)
                 else:
                     m.binds[ov] = old
+            if ok is None:
+                c.unk("engine:delta-%s" % kind, loc(bw, n), "an alternative of the value delivered to a child's pending delta is assembled by hand from value buffers: its arithmetic is not read")
+                continue
             c.check(ok, "engine:delta-%s" % kind, loc(bw, n),
                     "value delivered to a child's pending delta is a sum of reduced closure slots / pending deltas: linear in the seed",
                     "value delivered to a child's pending delta is not linear in the seed: %s" % show(expr)[:120])
@@ -1221,10 +1290,16 @@ def engine_seed_linearity(c, facts):
         for kind, expr, olds in m.payload_cases(payload, ctx, owner, m.f_grad):
             p = peel(m.unlet(expr))
             if kind == "Some":
-                ok = p.get("k") == "Call" and resolved(p) == ADD and (seedlin(p["args"][0]) or seedlin(p["args"][1]))
+                if p.get("k") in ("If", "Match") and seedlin(p) is None:
+                    c.unk("engine:gradient-Some", loc(bw, n), "an alternative of the value added to an occupied gradient slot is assembled by hand from value buffers: its arithmetic is not read")
+                    continue
+                ok = p.get("k") == "Call" and resolved(p) == ADD and bool(seedlin(p["args"][0]) or seedlin(p["args"][1]))
                 c.check(ok, "engine:gradient-Some", loc(bw, n), "this pass's contribution to an occupied gradient slot is linear in the seed (old + delta)",
                         "contribution added to an occupied gradient slot is not linear in the seed: %s" % show(expr)[:120])
             else:
+                if seedlin(expr) is None:
+                    c.unk("engine:gradient-%s" % kind, loc(bw, n), "an alternative of the gradient stored into an empty slot is assembled by hand from value buffers: its arithmetic is not read")
+                    continue
                 c.check(seedlin(expr), "engine:gradient-%s" % kind, loc(bw, n), "gradient stored into an empty slot is linear in the seed",
                         "gradient stored into an empty slot is not linear in the seed: %s" % show(expr)[:120])
 
@@ -1502,7 +1577,8 @@ def r10_flag_writers_and_pairing(facts):
         if bnd[0] != "let" or bnd[1] is None:
             continue
         init = bnd[1]
-        if mentions_children(init) and calls_in(init, STOP):
+        ity = (strip(init).get("ty") or "") if isinstance(strip(init), dict) else ""
+        if mentions_children(init) and calls_in(init, STOP) and (not ity or "bool" in ity):
             saved, saved_sp = v, m.pos(init)
     if saved is None:
         for n, ctx in walk_ctx(m.root):
@@ -1771,6 +1847,34 @@ def _writes_cell(facts, b, fields):
 
 # ------------------------------------------------------------------ R24
 
+def _loop_filter_on_flag(vf, broot, var, flag):
+    """`var` is the pattern variable of a `for` loop whose iterator is filtered by `|c| c.<flag>.get()`: every iteration runs with the flag set"""
+    for n in walk(broot):
+        fl = F.for_loop_parts(n)
+        if not fl:
+            continue
+        it_, pat_, _, _ = fl
+        if var not in [v for v, _, _, _ in F.pat_bindings(pat_)]:
+            continue
+        for x in walk(it_):
+            if x.get("k") == "Call" and callee(x) == IT + "filter" and len(x["args"]) == 2:
+                clo = strip(x["args"][1])
+                if clo.get("k") != "Closure":
+                    continue
+                cb = vf.body(clo["closure"])
+                if cb is None:
+                    continue
+                _, t = closure_tail(vf, cb)
+                t = peel(t) if t is not None else None
+                pv = [v for v, _, _, _ in param_vars(vf, cb)]
+                if isinstance(t, dict) and t.get("k") == "Call" and callee(t) == CELL + "get" and t["args"]:
+                    r_, ch = field_chain(t["args"][0])
+                    if ch == [flag] and var_of(r_) in pv:
+                        # nothing between the filter and the loop may re-order or re-map elements to other nodes: only identity adaptors
+                        return True
+    return False
+
+
 def r24_count_protocol(facts):
     """R24: counting / decrementing / recursion are guarded by the shared consumer counter; one invocation site."""
     c = Ctx("R24", facts, "consumer-count protocol guards and the single derivative invocation site")
@@ -1918,6 +2022,8 @@ def r24_count_protocol(facts):
                     r3, ch3 = field_chain(cnd["args"][0])
                     if ch3 == ["is_tracked"] and var_of(r3) == owner:
                         guard = True
+            loop_guard = _loop_filter_on_flag(vf, broot, owner, "is_tracked")
+            guard = guard or loop_guard
             c.check(ok_body and guard, "count:increment", loc(b, n),
                     "a child's counter is incremented only while counting consumers and only if that child is tracked",
                     "counter increment %s" % ("is not guarded by exactly the child's is_tracked flag (children that are never delivered to keep a residue; "
@@ -1960,6 +2066,7 @@ def r24_count_protocol(facts):
                             r4, ch4 = field_chain(cnd2["args"][0])
                             if ch4 == ["is_tracked"] and var_of(r4) == owner:
                                 tguard = True
+                    tguard = tguard or loop_guard
                     c.check(tguard, "count:descend-tracked", loc(b, n2),
                             "descent only through children that are tracked (the guard of the increment)",
                             "the counting descends through a child whether or not it is tracked: nodes below an untracked child are told to wait for a delivery "
